@@ -103,13 +103,13 @@ def c02_batches(tier):
         for be, var in confs:
             sp = SPEED[be] * (1 if var == "optim" else 8)
             # statistics batches: binary gates, MUX-heavy netlists, deep chains (depth >= 50), maximal admissible input noise
-            bs.append(B("stat-mixed-%s-%s-%s" % (spec, be, var), "gates", be, var, 150 if q else 450, spec=spec, nkeys=1 if q else 3, mode="netlist", gates=24, mingates=20,
+            bs.append(B("stat-mixed-%s-%s-%s" % (spec, be, var), "gates", be, var, 260 if q else 900, spec=spec, nkeys=2 if q else 6, mode="netlist", gates=24, mingates=20,
                         muxbias=0.6, pfault=0.6, crash=0, stats=1, weight=220 * sp, det_count=1, no_determinism=not q))
-            bs.append(B("stat-fresh-%s-%s-%s" % (spec, be, var), "gates", be, var, 660 if q else 2000, spec=spec, nkeys=1 if q else 3, mode="table", prov=0, dev=0,
+            bs.append(B("stat-fresh-%s-%s-%s" % (spec, be, var), "gates", be, var, 700 if q else 4000, spec=spec, nkeys=2 if q else 6, mode="table", prov=0, dev=0,
                         stats=1, weight=160 * sp, det_count=1, no_determinism=not q))
-            bs.append(B("stat-max-%s-%s-%s" % (spec, be, var), "gates", be, var, 660 if q else 2000, spec=spec, nkeys=1 if q else 3, mode="table", dev=3,
+            bs.append(B("stat-max-%s-%s-%s" % (spec, be, var), "gates", be, var, 700 if q else 4000, spec=spec, nkeys=2 if q else 6, mode="table", dev=3,
                         stats=1, weight=200 * sp, det_count=1, no_determinism=not q))
-            bs.append(B("stat-deep-%s-%s-%s" % (spec, be, var), "gates", be, var, 26 if q else 100, spec=spec, nkeys=1 if q else 3, mode="netlist", shape=1, gates=150,
+            bs.append(B("stat-deep-%s-%s-%s" % (spec, be, var), "gates", be, var, 30 if q else 200, spec=spec, nkeys=2 if q else 6, mode="netlist", shape=1, gates=150,
                         mingates=150, pfault=0.0, crash=0, stats=1, weight=200 * sp, det_count=1, no_determinism=not q))
     return bs
 
@@ -131,15 +131,18 @@ def c02_judge(tier, batches, results, cov, judged):
     for b, pb in zip(batches, cov["per_batch"]):
         if not b["name"].startswith("stat-"):
             continue
-        key = (b["opts"]["spec"], b["backend"], b["variant"])
-        g = groups.setdefault(key, {})
         for k, v in pb["stats"].items():
-            if k.endswith(".max"):
-                g[k] = max(g.get(k, 0.0), v)
-            else:
-                g[k] = g.get(k, 0.0) + v
-    for (spec, be, var), st in sorted(groups.items()):
-        name = "%s/%s/%s" % (spec, be, var)
+            if not k.startswith("K"):
+                continue
+            kid, rest = k.split(".", 1)
+            for keyid in (kid, "pooled"):     # judged per key seed (the property quantifies over keys) and pooled
+                g = groups.setdefault((b["opts"]["spec"], b["backend"], b["variant"], keyid), {})
+                if rest.endswith(".max"):
+                    g[rest] = max(g.get(rest, 0.0), v)
+                else:
+                    g[rest] = g.get(rest, 0.0) + v
+    for (spec, be, var, keyid), st in sorted(groups.items()):
+        name = "%s/%s/%s/%s" % (spec, be, var, keyid)
         for cls, mult in (("bin", 1.0), ("mux", 1.35)):
             n, mean, sd = _sd(st, cls)
             bound = NOISE_BOUND[spec] * mult
